@@ -174,7 +174,7 @@ func cliCases(c *core.Ctx) {
 		} else {
 			oc = "panic:" + oc
 		}
-		c.Emit("C15.rmsingle", "1", n.Dump(), oc, d, wf, "cli")
+		c.Emit("C15.rmsingle", "1", n.Dump(), oc, d, wf, "", "cli")
 	default: // subtree at a named inner node
 		raw := cliOpts(g, "t", 2)
 		var inner [][]int
@@ -211,5 +211,160 @@ func stripComments(n *core.N) {
 	}
 	for _, k := range n.Kids {
 		stripComments(k)
+	}
+}
+
+// ---- glue cases: the command as a whole against the Lean functions cliGraft, cliMerge, … ----
+
+// runGlue runs the binary and returns (outcome, α dump of the printed tree or "-").
+func runGlue(c *core.Ctx, args ...string) (string, string) {
+	r := c.RunCLI("", 20*time.Second, args...)
+	if r.Timeout {
+		return "panic:timeout", "-"
+	}
+	if strings.Contains(r.Stderr, "panic:") || strings.Contains(r.Stderr, "goroutine ") {
+		return "panic:" + core.Escape(firstLine(r.Stderr)), "-"
+	}
+	if r.Exit != 0 {
+		return "err", "-" // cobra prints the error and the usage; no tree is expected
+	}
+	oc := "ok"
+	out := strings.TrimSpace(r.Stdout)
+	if out == "" {
+		return oc, "-"
+	}
+	t, err := parseNewick(out)
+	if err != nil || t == nil {
+		return "panic:" + core.Escape("unreadable output: "+firstLine(out)), "-"
+	}
+	d, wf := read(t)
+	if wf != "" {
+		return "panic:" + wf, "-"
+	}
+	return oc, d
+}
+
+func glueCases(c *core.Ctx) {
+	g := c.G
+	switch g.Intn(5) {
+	case 0: // graft, incl. the refused ones (absent tip, the tip is the root)
+		raw := cliOpts(g, "t", 2)
+		if g.Chance(0.25) {
+			o := opts(g)
+			raw = rootTip(g, raw, &o, "rt")
+			core.NumberEdges(raw)
+		}
+		htxt, host, ok1 := asRead(raw)
+		gtxt, gr, ok2 := asRead(cliOpts(g, "g", 2))
+		if !ok1 || !ok2 {
+			return
+		}
+		tips := host.TipNames()
+		tip := tips[g.Intn(len(tips))]
+		switch g.Intn(6) {
+		case 0:
+			tip = "nosuchtip"
+		case 1:
+			tip = tips[0] // the root when it is a tip
+		}
+		oc, out := runGlue(c, "graft", "-i", c.TmpFile(htxt+"\n"), "-c", c.TmpFile(gtxt+"\n"), "-l", tip)
+		c.Emit("C15.glue", "graft", host.Dump(), core.Escape(tip), gr.Dump(), oc, out)
+	case 1: // merge, incl. unrooted / common names
+		n1 := cliOpts(g, "t", 1)
+		p2 := "u"
+		if g.Chance(0.2) {
+			p2 = "t"
+		}
+		n2 := cliOpts(g, p2, 1)
+		for _, n := range []*core.N{n1, n2} {
+			if len(n.Kids) > 2 && !g.Chance(0.2) {
+				in := &core.N{E: core.NewE(), Kids: n.Kids[1:]}
+				in.E.Len = 1
+				n.Kids = []*core.N{n.Kids[0], in}
+				core.NumberEdges(n)
+			}
+		}
+		t1, a, ok1 := asRead(n1)
+		t2, b, ok2 := asRead(n2)
+		if !ok1 || !ok2 {
+			return
+		}
+		oc, out := runGlue(c, "merge", "-i", c.TmpFile(t1+"\n"), "-c", c.TmpFile(t2+"\n"))
+		c.Emit("C15.glue", "merge", a.Dump(), b.Dump(), "", oc, out)
+	case 2: // repopulate, incl. refused groups
+		txt, n, ok := asRead(cliOpts(g, "t", 2))
+		if !ok {
+			return
+		}
+		tips := n.TipNames()
+		perm := g.R.Perm(len(tips))
+		var groups [][]string
+		var lines []string
+		fresh := 0
+		for i := 0; i < 1+g.Intn(2) && i < len(tips); i++ {
+			grp := []string{tips[perm[i]]}
+			for j := 0; j < 1+g.Intn(3); j++ {
+				grp = append(grp, fmt.Sprintf("n%d", fresh))
+				fresh++
+			}
+			groups = append(groups, grp)
+		}
+		switch g.Intn(6) {
+		case 0:
+			groups[0] = append(groups[0], tips[perm[len(tips)-1]]) // two existing
+		case 1:
+			groups = append(groups, []string{"z1", "z2"}) // none existing
+		}
+		for _, grp := range groups {
+			lines = append(lines, strings.Join(grp, ","))
+		}
+		oc, out := runGlue(c, "repopulate", "-i", c.TmpFile(txt+"\n"), "-g", c.TmpFile(strings.Join(lines, "\n")+"\n"))
+		c.Emit("C15.glue", "repopulate", n.Dump(), core.StrLists(groups), "", oc, out)
+	case 3: // collapse single, incl. chains and a root that is a tip
+		raw := cliOpts(g, "t", 2)
+		o := opts(g)
+		addSingles(g, &o, raw, 0.25)
+		if g.Chance(0.25) {
+			raw = rootTip(g, raw, &o, "rt")
+		}
+		stripComments(raw)
+		core.NumberEdges(raw)
+		txt, n, ok := asRead(raw)
+		if !ok {
+			return
+		}
+		oc, out := runGlue(c, "collapse", "single", "-i", c.TmpFile(txt+"\n"))
+		c.Emit("C15.glue", "collapsesingle", n.Dump(), "", "", oc, out)
+	default: // subtree -n '^name$': one inner match, a tip, no match, two matches, the root
+		raw := cliOpts(g, "t", 2)
+		var inner [][]int
+		for _, q := range raw.Paths() {
+			if len(q) > 0 && len(raw.At(q).Kids) > 0 {
+				inner = append(inner, q)
+			}
+		}
+		name := "SUBX"
+		switch k := g.Intn(6); {
+		case k == 0:
+			name = raw.TipNames()[0]
+		case k == 1:
+			name = "NOSUCH"
+		case k == 2 && len(inner) >= 2:
+			raw.At(inner[0]).Name = "SUBX"
+			raw.At(inner[len(inner)-1]).Name = "SUBX"
+		case k == 3:
+			raw.Name = "SUBX"
+		default:
+			if len(inner) == 0 {
+				return
+			}
+			raw.At(inner[g.Intn(len(inner))]).Name = "SUBX"
+		}
+		txt, n, ok := asRead(raw)
+		if !ok {
+			return
+		}
+		oc, out := runGlue(c, "subtree", "-i", c.TmpFile(txt+"\n"), "-n", "^"+name+"$")
+		c.Emit("C15.glue", "subtree", n.Dump(), core.Escape(name), "", oc, out)
 	}
 }
